@@ -123,6 +123,9 @@ func (obj Object) CompletionAtPos(ctx context.Context, pos hcl.Pos) []lang.Candi
 				// it means the attribute is likely quoted
 				if pos.Byte >= attrRange.Start.Byte {
 					prefixLen := pos.Byte - attrRange.Start.Byte
+					if prefixLen > len(attrName) {
+						prefixLen = len(attrName)
+					}
 					prefix = attrName[0:prefixLen]
 				}
 
